@@ -47,6 +47,8 @@ FORBIDDEN = re.compile(
 KERNEL_TB = [
     'Coq 8.16.1 kernel (coqc, full .vo build; vm_compute used for evaluation; no native_compute)',
     'tools/py2coq translator (Python ast of /repo sources -> coq/Gen/*.v, fail-closed)',
+    'coq/Core/MiniPy.v: the interpreter that gives meaning to translated function bodies (a model of Python semantics for the fragment; '
+    'float literals read as the decimals written, strings as lists of 8-bit characters)',
     'correspondence harness tools/props + tools/harness (generators, canonicalisers; comparison runs inside Coq)',
     'hand-written Spec/ transcriptions of the documented tables/partitions/thresholds',
 ]
